@@ -735,6 +735,9 @@ class Abs:
             elif isinstance(st, ast.AugAssign) and isinstance(
                     st.target, ast.Name) and st.target.id == name:
                 defs.append(('aug', st.value))
+            elif isinstance(st, ast.NamedExpr) and isinstance(
+                    st.target, ast.Name) and st.target.id == name:
+                defs.append(('assign', st.value))
             elif isinstance(st, (ast.For, ast.comprehension)):
                 tg = st.target
                 if isinstance(tg, ast.Name) and tg.id == name:
@@ -934,6 +937,22 @@ class Abs:
         if nm in ('nodes.dfs', 'nodes.bfs', 'dfs', 'bfs',
                   'nodes.filter_nodes'):
             return ('list', ('node', ))
+        if nm in ('itertools.chain.from_iterable',
+                  'chain.from_iterable') and len(e.args) == 1:
+            k = self.kind(e.args[0], m, f, env, depth + 1)
+            if k[0] in ('unknown', 'bad', 'skip'):
+                return k
+            return ('list', self.elem_of(self.elem_of(k)))
+        if nm in ('itertools.chain', 'chain') and e.args and not any(
+                isinstance(a, ast.Starred) for a in e.args):
+            acc = None
+            for a in e.args:
+                k = self.kind(a, m, f, env, depth + 1)
+                if k[0] in ('unknown', 'bad', 'skip'):
+                    return k
+                k = self.elem_of(k)
+                acc = k if acc is None else self.join(acc, k)
+            return ('list', acc)
         if nm == 'get_piped_symbol':
             return ('node', 'INNER')
         if nm in ('get_default_constants', 'get_variables_with_sort'):
